@@ -19,3 +19,7 @@ Definition gen_bad_servers : list bytes :=
 
 Lemma all_routes_ok : gen_table_ok = true.
 Proof. vm_compute. reflexivity. Qed.
+
+(** The start-up glue as tools/routes reads it off the current source. *)
+Lemma startup_code_ok : boot_code_ok Gen.Routes.startup = true.
+Proof. vm_compute. reflexivity. Qed.
